@@ -90,7 +90,7 @@ func c18Pairs(tier string) []c18pair {
 	group(cells.ParamCells(), "decl", "inline", func(c cells.Cell) bool {
 		_, leaf := leafTypes[c.Attrs["kind"]]
 		l := c.Attrs["loc"]
-		return leaf && c.Attrs["null"] == "0" && (l == "query" || l == "query-array" || l == "header" || l == "path") && (tier != "quick" || c.Attrs["level"] != "override" || c.Attrs["kind"] == "int32" || c.Attrs["kind"] == "string")
+		return leaf && c.Attrs["null"] == "0" && (l == "query" || l == "query-array" || l == "header" || l == "path") && (tier != "quick" || (c.Attrs["level"] != "override" && c.Attrs["level"] != "sibling") || c.Attrs["kind"] == "int32" || c.Attrs["kind"] == "string")
 	}, func(a, b cells.Cell) *drv.DiffPayload {
 		tf := leafTypes[a.Attrs["kind"]]
 		in := map[string]string{"query": "query", "query-array": "query", "header": "header", "path": "path"}[a.Attrs["loc"]]
